@@ -29,4 +29,9 @@ CHECKS.update({
  'C01': _c('Complete grids of mix_from (receiver kind x 0-3 inlets from a menu of single/multi-phase templates over s/l/g/S/L x two property packages with re-ordered chemicals x dyadic flow vectors x receiver-among-inlets x energy balance), split_to, separate_out, copy_flow(remove) and scaling, plus BFS over histories of those operations on three streams with the chemicals lookup cache as part of the state; exact per-chemical balances against a dense CAS-keyed reference.', 'DESIGN.md section 3, C01'),
  'C10': _c('BFS over sequences of get/set with every key form (ID, alias, CAS, tuples, lists, groups, nested groups, ellipsis, phase pairs), cache floods that drive both lookup caches through eviction, cross-package operations that write into the shared cache, set_alias/define_group, on ChemicalIndexer and MaterialIndexer over packages of size 1-8; every lookup is compared with an own name table and with a freshly built indexer holding the same data.', 'DESIGN.md section 3, C10'),
 })
+
+CHECKS.update({
+ 'C12': _c('Explicit-state BFS over sequences of phase-set changes (every target set containing the non-empty phases up to case), single/multi conversions, reduce_phases, as_stream, touching .vle/.lle/.sle, taking phase views, writes through views and through the parent, get_data/set_data with earlier snapshots and copy_like, over flows from a small alphabet on s/l/g/S/L; closure for three phase universes, depth-bounded for wider alphabets; totals, per-phase rows, T, P and view liveness are checked after every transition.', 'DESIGN.md section 3, C12 and 3b'),
+ 'C13': _c('Explicit-state BFS over copy / copy_like / link_with (8 flag sets) / unlink / proxy / flow_proxy / mutation / pickle round-trip on a universe of three streams (single and multi-phase, two property packages); the reference model is a union-find over the shareable containers plus values; a complete pickle grid over constructor arguments and over reactions, chemicals and packages.', 'DESIGN.md section 3, C13'),
+})
 NOT_APPLICABLE = {k: v for k, v in NOT_APPLICABLE.items() if k not in CHECKS}
